@@ -326,6 +326,9 @@ fn parse_cron_part(
                 return Err("Can't find end number of range".to_string());
             }
             let end = parse_value(end, cron_type)?;
+            if range_parts.next().is_some() {
+                return Err(format!("Invalid range: {}", part));
+            }
 
             if start > end {
                 return Err(
